@@ -454,5 +454,8 @@ def transfer_col_references(table, ref_source):
         uuid_map={uid: ref_source._cache.name_to_uuid[name] for uid, name in table._cache.uuid_to_name.items()},
     )
     new._cache = table._cache.update(new._ast)
+    # the columns carry the UUIDs of `ref_source`, so a join with a table derived
+    # from it is a self-join
+    new._cache.derived_from = new._cache.derived_from | ref_source._cache.derived_from
 
     return new
